@@ -237,6 +237,43 @@ NA = {
  'C14': 'value-level: reshape round-trip identities (recast∘melt, transpose², unflatten∘flatten, fromdicts∘dicts) '
         'quantify over cell values; nothing in the shape of the code decides them',
 }
+
+# rules added while triaging the third round of seeded changes (DESIGN.md §0, §8): appended to the claim texts
+EXTRA = {
+ 'C01': 'Also: a source\'s open() in a read mode hands out a stream created by that call (R1.5); the cachecomplete flag of '
+        'cache() is raised only while every row of the pass was memoised (decided on a finite grid).',
+ 'C02': 'Also: a wrapper with a `presorted` parameter passes it to every sort-backed callee it hands its own tables to '
+        '(R2.5); rendering a table as text (%r, str(), format) at construction counts as a data read.',
+ 'C04': 'Also: derived operators with a body of their own are evaluated on the full type table (R4.2); key extraction is '
+        'positional: one component per requested position, in order, unfiltered, None for a missing cell (R4.4).',
+ 'C05': 'Also: > >= <= on Comparable and _Keyed are the stated functions of < and == (R5.8, the reverse merge uses max()); '
+        'output rows are assembled afresh between deliveries (row-buffer typestate, R5.9).',
+ 'C06': 'Also: row-buffer typestate (R6.7), Comparable order laws (R6.8), `missing` forwarded unchanged (R6.9), no '
+        'None-sentinel compared with keys before a None test (R6.10).',
+ 'C07': 'Also: row-buffer typestate (R7.6), `missing` forwarded unchanged incl. through **kwargs callees (R7.7), no '
+        'None-sentinel compared with keys before a None test (R7.8).',
+ 'C09': 'Also: row-buffer typestate (R9.9), None-sentinel rule (R9.10), key cells of aggregate rows line up with the key '
+        'fields of the header: same tests on the key specification, same width, no test on a group key value (R9.11).',
+ 'C11': 'Also: one quantity bounds every chunk read and the exhaustion test and it resolves to the argument, or to '
+        'config.sort_buffersize when the argument is None (R11.2, symbolic); the two presorted branches of a constructor '
+        'are equal modulo sort() (R11.3).',
+ 'C12': 'Also: row-buffer typestate (R12.9), None-sentinel rule (R12.10), `missing` compared by value never by identity '
+        '(R12.11), rowgetter selectors raise IndexError on short rows (R12.12), Record wrappers never leave an operator '
+        '(R12.13).',
+ 'C13': 'Also: Record wrappers never leave a selection (R13.6); search applies the pattern to one cell at a time (R13.7).',
+ 'C15': 'Also: one row per record in the readers and one record per row in the writers on every path (R15.6); the '
+        'Uncloseable stream proxy answers everything but close() through the wrapped stream (R15.7); an append writer does '
+        'not put a second byte order mark into a gzip / bz2 target (R15.8; two known findings).',
+ 'C17': 'Also: the dispatcher reaches an implementation on every normal exit (R17.5); commit()/rollback() are called by the '
+        'load implementations only, never by the read side (R17.6).',
+ 'C18': 'Also: the generator\'s own reference to the chunk-file owners is never re-bound (R18.4); spill-file discipline of '
+        'fromdicts (R18.7).',
+ 'C19': 'Also: no handler in front of the failonerror handler deals with exceptions of the user callable (R19.1).',
+ 'C20': 'Also: a pre-loop sentinel / the default of next() is never yielded as a row (R20.2).',
+}
+for _p, _t in EXTRA.items():
+    CLAIMS[_p]['text'] = CLAIMS[_p]['text'] + ' ' + _t
+
 PENDING = 'check not yet implemented in this revision (work in progress; see DESIGN.md for the planned rules)'
 
 props = [json.loads(l)['id'] for l in open('/verif/properties.jsonl')]
